@@ -21,18 +21,18 @@ void ob_c02_pad_view(const arr_fs<float,N,R>& a, const std::array<size_t,2*R>& p
         else { ASSUME(ti < n + bf + af); idx[i] = ti; }
     });
     auto mv = view::pad(a, p, value);
-    if constexpr (meta::is_maybe_v<decltype(mv)>) OBLIGE("C02.padview.valid", static_cast<bool>(mv), R, FIRST, ZONE);
+    if constexpr (meta::is_maybe_v<decltype(mv)>) OBLIGE("C02.padview.valid|C04.padview.valid", static_cast<bool>(mv), R, FIRST, ZONE);
     if (nm::has_value(mv)) {
         const auto& v = nm::unwrap(mv);
         auto shp = nm::shape(v);
-        OBLIGE("C02.padview.dim", (size_t)nm::len(shp) == R, R, FIRST, ZONE);
-        for_<R>([&](auto I){ OBLIGE("C02.padview.shape", gx<I.value>(shp) == eshape[I.value], R, FIRST, ZONE, I.value); });
+        OBLIGE("C02.padview.dim|C04.padview.dim", (size_t)nm::len(shp) == R, R, FIRST, ZONE);
+        for_<R>([&](auto I){ OBLIGE("C02.padview.shape|C04.padview.shape", gx<I.value>(shp) == eshape[I.value], R, FIRST, ZONE, I.value); });
         auto e1 = std::apply([&](auto... i){ return v(i...); }, idx);
         if constexpr (FIRST == R) {
             auto e2 = std::apply([&](auto... i){ return a(i...); }, t);
-            OBLIGE("C02.padview.element_inside_is_source_element", same_bits(e1,e2), R, FIRST, ZONE);
+            OBLIGE("C02.padview.element_inside_is_source_element|C04.padview.element_inside_is_source_element", same_bits(e1,e2), R, FIRST, ZONE);
         } else {
-            OBLIGE("C02.padview.element_in_padding_is_pad_value", same_bits(e1,value), R, FIRST, ZONE);
+            OBLIGE("C02.padview.element_in_padding_is_pad_value|C04.padview.element_in_padding_is_pad_value", same_bits(e1,value), R, FIRST, ZONE);
         }
     }
 }
@@ -41,7 +41,7 @@ void ob_c02_padview_negctl(const arr_fs<float,4,1>& a, const std::array<size_t,2
     const auto p = p_;
     ASSUME(rd<0>(a.shape_) >= 1); ASSUME(rd<0>(a.shape_) < 1024); ASSUME(p[0] < 1024); ASSUME(p[1] < 1024); ASSUME(t < p[0]);
     auto mv = view::pad(a, p, value);
-    if (nm::has_value(mv)) { const auto& v = nm::unwrap(mv); auto e1 = v(t); auto e2 = a(t); NEGCTL("C02.NEG.padview_padding_reads_source", same_bits(e1,e2), 0); }
+    if (nm::has_value(mv)) { const auto& v = nm::unwrap(mv); auto e1 = v(t); auto e2 = a(t); NEGCTL("C02.NEG.padview_padding_reads_source|C04.NEG.padview_padding_reads_source", same_bits(e1,e2), 0); }
 }
 #define PV(N,R,F,Z) template void ob_c02_pad_view<N,R,F,Z>(const arr_fs<float,N,R>&, const std::array<size_t,2*R>&, const std::array<size_t,R>&, float);
 PV(4,1,1,0) PV(4,1,0,1)
